@@ -92,6 +92,12 @@ Proof. exact D18p.load_standard_package_paths. Qed.
 Theorem C14_other_entries_are_not_the_control_file : forall x, PATH.plain x = true -> x <> s "control" ->
   PATH.clean x <> s "control" /\ PATH.clean (PATH.dot :: PATH.slash :: x) <> s "control" /\ PATH.clean (x ++ [PATH.slash]) <> s "control".
 Proof. exact D18p.other_entry_not_control. Qed.
+(* path.Clean is a projection onto canonical paths (so "the entry whose cleaned name is control" does not depend on how
+   often a name was cleaned before): the result is canonical, canonical paths are left alone, hence idempotence *)
+Require PATHc.
+Theorem C14_clean_is_a_projection : forall p, PATHc.canon (PATH.clean p) /\ PATH.clean (PATH.clean p) = PATH.clean p.
+Proof. exact (fun p => conj (PATHc.clean_canon p) (PATHc.clean_idempotent p)). Qed.
+Print Assumptions C14_clean_is_a_projection.
 Print Assumptions C14_load_standard_package_with_path_model.
 Print Assumptions C14_control_entry_names.
 Print Assumptions C14_load_standard_package.
